@@ -444,11 +444,15 @@ pub struct Presentation {
     /// sequence of exactly `fields.len()` elements. Used only for the "observed, not judged" note in the evidence.
     #[serde(default)]
     pub limit_to_declared_fields: bool,
+    /// the peer is a self-describing *binary* format (MessagePack, CBOR): everything as above, but it answers
+    /// `is_human_readable` with false. No palette type looks at that on the current tree.
+    #[serde(default)]
+    pub binary: bool,
 }
 
 impl Presentation {
     pub fn plain() -> Self {
-        Presentation { struct_as: StructAs::Map, key_form: KeyForm::BorrowedStr, alpha_pos: 255, order: 0, size_hint: true, alpha_present: true, unknown_key_at: None, strict_option: false, unknown_key_kind: 0, honour_requested_len: false, limit_to_declared_fields: false }
+        Presentation { struct_as: StructAs::Map, key_form: KeyForm::BorrowedStr, alpha_pos: 255, order: 0, size_hint: true, alpha_present: true, unknown_key_at: None, strict_option: false, unknown_key_kind: 0, honour_requested_len: false, limit_to_declared_fields: false, binary: false }
     }
 }
 
